@@ -524,3 +524,11 @@ def iseq_slice_iadd(lib, run, base, key, v):
     if lo is None and step is None and hi is not None and isinstance(v, Num):
         return SeqV('I', iaddprefix(base.term, intterm(hi), intterm(v)))
     raise Unsupported('slice assignment on an int array')
+
+mslice = F('mslice', Mat, Int, Int, Mat)        # M[lo:hi]
+axiom('mslice.shape', forall([A_, lo_, hi_], z3.Implies(z3.And(0 <= lo_, lo_ <= hi_, hi_ <= mrows(A_)),
+                                                        z3.And(mrows(mslice(A_, lo_, hi_)) == hi_ - lo_,
+                                                               mcols(mslice(A_, lo_, hi_)) == mcols(A_))),
+                            [mslice(A_, lo_, hi_)]), ['mslice'], 'numpy')
+axiom('mslice.row', forall([A_, lo_, hi_, i_], mrow(mslice(A_, lo_, hi_), i_) == mrow(A_, lo_ + i_),
+                          [mrow(mslice(A_, lo_, hi_), i_)]), ['mslice'], 'numpy')
